@@ -999,7 +999,7 @@ Proof.
     rewrite (is_litsub_to_expr env c _ Hw Hu). unfold u_lit in Hl. rewrite Hl. cbn. f_equal.
     apply IH. intros x Hx. apply HX. right. exact Hx. }
   assert (EX2: filter is_litsub (map (fe c) X) = []).
-  { induction X as [|p r IH]; [reflexivity|]. cbn [map filter].
+  { clear EX1. induction X as [|p r IH]; [reflexivity|]. cbn [map filter].
     destruct (HX p (or_introl eq_refl)) as [(Hw & Hu & _) Hl]. unfold fe at 1.
     rewrite (is_litsub_to_expr env c _ Hw Hu). unfold u_lit in Hl. rewrite Hl.
     apply IH. intros x Hx. apply HX. right. exact Hx. }
@@ -1018,3 +1018,442 @@ Qed.
 Lemma match_len2 : forall {A B} (l : list A) (f : A -> B) (g : list A -> B),
   2 <= length l -> match l with [x] => f x | l' => g l' end = g l.
 Proof. intros A B l f g H. destruct l as [|a [|b r]]; cbn in H; try lia; reflexivity. Qed.
+
+Lemma mapM_length : forall {A B} (f : A -> option B) l r, mapM f l = Some r -> length l = length r.
+Proof.
+  induction l as [|x l IH]; intros r H; cbn in H.
+  - injection H as <-. reflexivity.
+  - destruct (f x); [|discriminate]. destruct (mapM f l) eqn:E; [|discriminate].
+    injection H as <-. cbn. f_equal. apply IH. reflexivity.
+Qed.
+
+Lemma NoDup_same_key : forall {A K} (key : A -> K) (k : K) l,
+  NoDup (map key l) -> (forall x, In x l -> key x = k) -> length l <= 1.
+Proof.
+  intros A K key k l Hn H. destruct l as [|a [|b r]]; cbn; try lia.
+  exfalso. cbn in Hn. inversion Hn as [|? ? Hna _]; subst. apply Hna. left.
+  rewrite (H a), (H b); [reflexivity| right; left; reflexivity | left; reflexivity].
+Qed.
+
+Lemma existsb_enone_items : forall env c nl ls,
+  (forall p, In p nl -> member_ok env c p) ->
+  existsb is_enone (map (fe c) nl ++ lge ls) = existsb (u_none c) nl.
+Proof.
+  intros env c nl ls H. rewrite existsb_app.
+  assert (E: existsb is_enone (lge ls) = false) by (destruct ls; reflexivity).
+  rewrite E, orb_false_r. induction nl as [|p r IH]; [reflexivity|].
+  cbn [map existsb]. rewrite (is_enone_fe env c p (H p (or_introl eq_refl))). f_equal.
+  apply IH. intros x Hx. apply H. right. exact Hx.
+Qed.
+
+Lemma filter_enone_items : forall env c nl ls,
+  (forall p, In p nl -> member_ok env c p) ->
+  filter (fun e => negb (is_enone e)) (map (fe c) nl ++ lge ls) =
+  map (fe c) (filter (fun p => negb (u_none c p)) nl) ++ lge ls.
+Proof.
+  intros env c nl ls H. rewrite filter_app. f_equal.
+  - rewrite <- (map_filter_comm (fe c) (fun e => negb (is_enone e))). f_equal.
+    apply filter_ext_in'. intros p Hp. rewrite (is_enone_fe env c p (H p Hp)). reflexivity.
+  - destruct ls; reflexivity.
+Qed.
+
+Lemma conv_union_core : forall env c nl ls,
+  (forall p, In p nl -> member_ok env c p /\ u_lit p = false) ->
+  (forall p, In p ls -> member_ok env c p /\ u_lit p = true) ->
+  nl ++ ls <> [] -> NoDup (map (u_key c) nl) ->
+  conv env (match map (fe c) nl ++ lge ls with
+            | [x] => x
+            | l' => if existsb is_enone l'
+                    then ESub id_Optional [union1_e (filter (fun e => negb (is_enone e)) l')]
+                    else ESub id_Union l'
+            end) =
+  Some (match map snd nl ++ lgt ls with
+        | [] => Union []
+        | [x] => x
+        | _ => if existsb (u_none c) nl
+               then mk_union [match map snd (filter (fun p => negb (u_none c p)) nl) ++ lgt ls with
+                              | [x] => x | l => mk_union l end; Named (NP id_NoneType)]
+               else mk_union (map snd nl ++ lgt ls)
+        end).
+Proof.
+  intros env c nl ls Hnl Hls Hne Hnd.
+  assert (Hnl1: forall p, In p nl -> member_ok env c p) by (intros p Hp; apply (Hnl p Hp)).
+  pose proof (conv_items env c nl ls Hnl1 Hls) as HM.
+  pose proof (existsb_enone_items env c nl ls Hnl1) as HE.
+  pose proof (filter_enone_items env c nl ls Hnl1) as HF.
+  set (nl' := filter (fun p => negb (u_none c p)) nl) in *.
+  assert (Hnl': forall p, In p nl' -> member_ok env c p /\ u_lit p = false).
+  { intros p Hp. apply filter_In in Hp. apply Hnl. apply Hp. }
+  assert (Hnl'1: forall p, In p nl' -> member_ok env c p) by (intros p Hp; apply (Hnl' p Hp)).
+  pose proof (conv_items env c nl' ls Hnl'1 Hls) as HM'.
+  pose proof (coalesce_e_again env c nl' ls Hnl') as HC.
+  assert (Hlen: length (map (fe c) nl ++ lge ls) = length (map snd nl ++ lgt ls)) by (apply (mapM_length _ _ _ HM)).
+  assert (Hlen': length (map (fe c) nl' ++ lge ls) = length (map snd nl' ++ lgt ls)) by (apply (mapM_length _ _ _ HM')).
+  assert (Hnz: map (fe c) nl ++ lge ls <> []).
+  { destruct nl; [destruct ls; [cbn in Hne; congruence|discriminate]|discriminate]. }
+  destruct (map (fe c) nl ++ lge ls) as [|a [|b r]] eqn:EI; [congruence| |].
+  - (* a single item *)
+    destruct (map snd nl ++ lgt ls) as [|a' [|b' r']]; cbn in Hlen; try lia.
+    cbn in HM. destruct (conv env a); [|discriminate]. injection HM as <-. reflexivity.
+  - destruct (map snd nl ++ lgt ls) as [|a' [|b' r']] eqn:ET; cbn in Hlen; try lia.
+    cbv beta iota zeta. rewrite HE. destruct (existsb (u_none c) nl) eqn:EN.
+    + rewrite HF. unfold union1_e. rewrite HC.
+      assert (Hnz': map (fe c) nl' ++ lge ls <> []).
+      { intro E0. apply app_eq_nil in E0. destruct E0 as [E1 E2]. apply map_eq_nil in E1.
+        destruct ls; [|discriminate].
+        assert (Hall: forall x, In x nl -> u_key c x = [TNone]).
+        { intros x Hx. destruct (u_none c x) eqn:Ex; [unfold u_none, is_none_s in Ex; apply tokens_eqb_true in Ex; exact Ex|].
+          assert (In x nl') by (apply filter_In; split; [exact Hx|rewrite Ex; reflexivity]). rewrite E1 in H. contradiction. }
+        pose proof (NoDup_same_key (u_key c) [TNone] nl Hnd Hall) as Hle.
+        cbn [lge] in EI. rewrite app_nil_r in EI. apply (f_equal (@length _)) in EI. rewrite map_length in EI. cbn in EI. lia. }
+      rewrite conv_optional_sub.
+      destruct (map (fe c) nl' ++ lge ls) as [|x [|y s]] eqn:EI'; [congruence| |].
+      * destruct (map snd nl' ++ lgt ls) as [|x' [|y' s']]; cbn in Hlen'; try lia.
+        cbn in HM'. destruct (conv env x); [|discriminate]. injection HM' as <-. reflexivity.
+      * destruct (map snd nl' ++ lgt ls) as [|x' [|y' s']] eqn:ET'; cbn in Hlen'; try lia.
+        rewrite conv_union_sub. rewrite HM'. reflexivity.
+    + rewrite conv_union_sub. rewrite HM. reflexivity.
+Qed.
+
+Lemma conv_generic_sub : forall env i args,
+  (i =? id_Literal)%N = false -> (i =? id_Annotated)%N = false -> (i =? id_tuple)%N = false ->
+  (i =? id_Callable)%N = false -> (i =? id_Any)%N = false -> (i =? id_Optional)%N = false ->
+  (i =? id_Union)%N = false ->
+  conv env (ESub i args) =
+  match args, conv_base env i, mapM (conv env) args with
+  | _ :: _, Some n, Some ps => Some (Generic n ps)
+  | _, _, _ => None
+  end.
+Proof. intros env i args H1 H2 H3 H4 H5 H6 H7. cbn [conv]. rewrite H1, H2, H3, H4, H5, H6, H7. reflexivity. Qed.
+
+Lemma conv_tuple_sub : forall env args,
+  conv env (ESub id_tuple args) =
+  match args with
+  | [ETuple0] => Some (TupleT (NP id_tuple) [])
+  | [x; EEllipsis] =>
+      match conv env x with Some x' => Some (Generic (NP id_tuple) [x']) | None => None end
+  | _ => match mapM (conv env) args with Some ps => Some (TupleT (NP id_tuple) ps) | None => None end
+  end.
+Proof. reflexivity. Qed.
+
+Lemma conv_callable_list : forall env a r,
+  conv env (ESub id_Callable [EList a; r]) =
+  match mapM (conv env) a, conv env r with
+  | Some a', Some r' =>
+      match a' with
+      | [] | [NothingT] => Some (CallableT (NT id_Callable) [r'])
+      | _ => Some (CallableT (NT id_Callable) (a' ++ [r']))
+      end
+  | _, _ => None
+  end.
+Proof. reflexivity. Qed.
+
+Lemma conv_callable_ell : forall env r,
+  conv env (ESub id_Callable [EEllipsis; r]) =
+  match conv env r with Some r' => Some (Generic (NT id_Callable) [AnyT; r']) | None => None end.
+Proof. reflexivity. Qed.
+
+Lemma conv_annot_sub : forall env t a0 a,
+  conv env (ESub id_Annotated (t :: a0 :: a)) =
+  match conv env t, mapM ann_arg (a0 :: a) with
+  | Some t', Some x => Some (Annot t' x)
+  | _, _ => None
+  end.
+Proof. reflexivity. Qed.
+
+Lemma app_removelast_last' : forall {A} (l : list A) d, l <> [] -> removelast l ++ [last l d] = l.
+Proof. intros. symmetry. apply app_removelast_last. exact H. Qed.
+
+Lemma in_removelast : forall {A} (l : list A) x, In x (removelast l) -> In x l.
+Proof.
+  induction l as [|a [|b r] IH]; cbn; intros x H; [contradiction|contradiction|].
+  destruct H as [H|H]; [left; exact H|right; apply IH; exact H].
+Qed.
+
+Lemma in_last : forall {A} (l : list A) d, l <> [] -> In (last l d) l.
+Proof.
+  induction l as [|a [|b r] IH]; intros d H; [congruence|left; reflexivity|].
+  right. apply IH. discriminate.
+Qed.
+
+Lemma conv_to_expr : forall env c t, wf env t = true -> conv env (to_expr c t) = Some (norm c t).
+Proof.
+  intros env c. induction t using ty_ind'; intros Hwf.
+  - (* Named *)
+    cbn [wf] in Hwf. cbn [to_expr norm]. unfold name_expr.
+    destruct (name_id n =? id_NoneType)%N eqn:En.
+    + cbn. rewrite (wf_name_none env n Hwf En). reflexivity.
+    + cbn [conv]. apply wf_name_conv; assumption.
+  - reflexivity.
+  - reflexivity.
+  - (* TParam *)
+    cbn [wf] in Hwf. apply andb_true_iff in Hwf. destruct Hwf as [Hwf Hn].
+    apply andb_true_iff in Hwf. destruct Hwf as [Hwf Hs].
+    apply andb_true_iff in Hwf. destruct Hwf as [Hv Ht]. rewrite negb_true_iff in *.
+    destruct (is_special_false i Hs) as (E1 & E2 & E3 & E4 & E5 & E6 & E7).
+    cbn [to_expr conv norm]. unfold conv_name. rewrite E5, E1, E2, E3, E7, Hv. reflexivity.
+  - (* Lit *)
+    cbn [to_expr norm]. rewrite conv_literal. cbn [mapM]. rewrite conv_lit_arg_expr. reflexivity.
+  - (* Generic *)
+    cbn [wf] in Hwf. apply andb_true_iff in Hwf. destruct Hwf as [Hwf Hshape].
+    apply andb_true_iff in Hwf. destruct Hwf as [Hwf Hps].
+    apply andb_true_iff in Hwf. destruct Hwf as [Hwf Hnn]. apply negb_true_iff in Hnn.
+    pose proof (forallb_Forall_in _ _ _ H Hps) as IH.
+    assert (HM: mapM (conv env) (map (to_expr c) ps) = Some (map (norm c) ps)) by (apply mapM_map; exact IH).
+    cbn [to_expr norm]. fold (prints_tuple b).
+    destruct (prints_tuple b) eqn:Et.
+    + pose proof (prints_tuple_id b Et) as Hid. rewrite Hid.
+      apply Nat.eqb_eq in Hshape. destruct ps as [|p0 [|p1 pr]]; cbn in Hshape; try discriminate.
+      cbn [map app]. rewrite conv_tuple_sub. rewrite (IH p0 (or_introl eq_refl)).
+      assert (Hl := to_expr_like env c p0 ltac:(cbn in Hps; apply andb_true_iff in Hps; apply Hps)).
+      destruct (to_expr c p0); try contradiction; reflexivity.
+    + destruct (name_eqb b (NT id_Callable)) eqn:Ec.
+      * apply name_eqb_eq in Ec. subst b. cbn [name_id].
+        destruct ps as [|p0 [|p1 [|p2 pr]]]; try discriminate; destruct p0; try discriminate.
+        cbn [map tl]. rewrite conv_callable_ell. rewrite (IH p1); [reflexivity|right; left; reflexivity].
+      * assert (Hsp := wf_name_special env b Hwf). destruct (is_special_false _ Hsp) as (E1 & E2 & E3 & E4 & E5 & E6 & E7).
+        assert (Etu: (name_id b =? id_tuple)%N = false).
+        { destruct (name_id b =? id_tuple)%N eqn:E; [|reflexivity]. apply N.eqb_eq in E.
+          unfold prints_tuple, print_name in Et. rewrite Hnn, E in Et. rewrite tokens_eqb_refl in Et. discriminate. }
+        assert (Eca: (name_id b =? id_Callable)%N = false).
+        { destruct (name_id b =? id_Callable)%N eqn:E; [|reflexivity]. apply N.eqb_eq in E.
+          destruct b as [i|i|i]; cbn in E; subst i.
+          - cbn in Hwf. discriminate.
+          - cbn in Ec. discriminate.
+          - cbn in Hwf. discriminate. }
+        rewrite (conv_generic_sub env _ _ E4 E6 Etu Eca E1 E2 E3).
+        unfold conv_base. rewrite (wf_name_conv env b Hwf Hnn).
+        destruct ps as [|p0 pr]; [discriminate|]. cbn [map] in *. rewrite HM. reflexivity.
+  - (* TupleT *)
+    cbn [wf] in Hwf. apply andb_true_iff in Hwf. destruct Hwf as [Hwf Hps].
+    apply andb_true_iff in Hwf. destruct Hwf as [Hwf Hwn].
+    pose proof (forallb_Forall_in _ _ _ H Hps) as IH.
+    assert (HM: mapM (conv env) (map (to_expr c) ps) = Some (map (norm c) ps)) by (apply mapM_map; exact IH).
+    pose proof (prints_tuple_id b Hwf) as Hid.
+    assert (Hc: name_eqb b (NT id_Callable) = false).
+    { destruct (name_eqb b (NT id_Callable)) eqn:E; [|reflexivity]. apply name_eqb_eq in E. subst b. discriminate. }
+    cbn [to_expr norm]. rewrite Hc, Hid.
+    destruct ps as [|p0 ps0]; [reflexivity|].
+    rewrite conv_tuple_sub.
+    assert (Hl: forall p, In p (p0 :: ps0) -> type_like (to_expr c p)).
+    { intros p Hp. apply (to_expr_like env). rewrite forallb_forall in Hps. apply Hps. exact Hp. }
+    cbn [map] in *.
+    destruct ps0 as [|p1 [|p2 pr]].
+    + pose proof (Hl p0 (or_introl eq_refl)) as L0. cbn [map] in *.
+      destruct (to_expr c p0) eqn:E0; try contradiction; rewrite HM; reflexivity.
+    + pose proof (Hl p1 (or_intror (or_introl eq_refl))) as L1. cbn [map] in *.
+      destruct (to_expr c p1) eqn:E1; try contradiction; rewrite HM; destruct (to_expr c p0); reflexivity.
+    + cbn [map] in *.
+      destruct (to_expr c p0); destruct (to_expr c p1); rewrite HM; reflexivity.
+  - (* CallableT *)
+    cbn [wf] in Hwf. apply andb_true_iff in Hwf. destruct Hwf as [Hwf Hne].
+    apply andb_true_iff in Hwf. destruct Hwf as [Hwf Hps].
+    pose proof (forallb_Forall_in _ _ _ H Hps) as IH.
+    apply name_eqb_eq in Hwf. subst b.
+    assert (Hnz: ps <> []) by (destruct ps; [discriminate|discriminate]).
+    cbn [to_expr norm name_id]. rewrite conv_callable_list.
+    rewrite removelast_map.
+    rewrite (last_map (to_expr c) ps ENone AnyT Hnz).
+    rewrite (mapM_map (conv env) (to_expr c) (norm c)) by (intros x Hx; apply IH; apply in_removelast; exact Hx).
+    rewrite (IH (last ps AnyT) (in_last ps AnyT Hnz)).
+    rewrite <- (removelast_map (norm c)).
+    rewrite <- (last_map (norm c) ps AnyT AnyT Hnz).
+    assert (Hnz': map (norm c) ps <> []) by (destruct ps; [congruence|discriminate]).
+    pose proof (app_removelast_last' (map (norm c) ps) AnyT Hnz') as Hall.
+    set (r' := last (map (norm c) ps) AnyT) in *.
+    destruct (removelast (map (norm c) ps)) as [|a0 [|a1 ar]] eqn:Er.
+    + rewrite <- Hall. reflexivity.
+    + destruct a0; try (rewrite <- Hall; reflexivity). reflexivity.
+    + rewrite <- Hall. destruct a0; reflexivity.
+  - (* Union *)
+    cbn [wf] in Hwf. apply andb_true_iff in Hwf. destruct Hwf as [Hwf Hne].
+    apply andb_true_iff in Hwf. destruct Hwf as [Hts Hflat].
+    pose proof (forallb_Forall_in _ _ _ H Hts) as IH.
+    cbn [to_expr norm].
+    set (pairs := map (fun t => (t, norm c t)) ts).
+    assert (Hpairs: forall p, In p pairs -> member_ok env c p).
+    { intros p Hp. apply in_map_iff in Hp. destruct Hp as (t & <- & Ht). cbn [fst snd].
+      rewrite forallb_forall in Hts, Hflat. specialize (Hflat t Ht). apply negb_true_iff in Hflat.
+      repeat split; [apply Hts; exact Ht | exact Hflat | apply IH; exact Ht |].
+      intros Hl. cbn in Hl. destruct t; try discriminate. exists v. split; reflexivity. }
+    assert (Ees: map (to_expr c) ts = map (fe c) pairs).
+    { unfold pairs. rewrite map_map. reflexivity. }
+    rewrite Ees. rewrite form_set_on_map.
+    rewrite (form_set_on_ext c (fun x => flat (fe c x)) (u_key c) pairs).
+    2:{ intros p Hp. destruct (Hpairs p Hp) as (Hw & _). unfold u_key, fe.
+        destruct (print_to_expr env c (fst p) Hw) as [E _]. symmetry. exact E. }
+    fold (u_ks c pairs).
+    assert (Hks: forall p, In p (u_ks c pairs) -> member_ok env c p).
+    { intros p Hp. apply Hpairs. eapply form_set_on_incl. exact Hp. }
+    unfold union_e. rewrite (coalesce_e_members env c _ Hks).
+    fold (u_nl c pairs). fold (u_ls c pairs).
+    unfold norm_union.
+    change (match u_ls c pairs with [] => [] | _ :: _ => [join_types (map snd (u_ls c pairs))] end) with (lgt (u_ls c pairs)).
+    apply conv_union_core.
+    + intros p Hp. unfold u_nl in Hp. apply filter_In in Hp. destruct Hp as [Hp Hl]. apply negb_true_iff in Hl.
+      split; [apply Hks; exact Hp | exact Hl].
+    + intros p Hp. unfold u_ls in Hp. apply filter_In in Hp. destruct Hp as [Hp Hl].
+      split; [apply Hks; exact Hp | exact Hl].
+    + assert (Hk: u_ks c pairs <> []).
+      { apply form_set_on_nonempty. unfold pairs. destruct ts; [discriminate|cbn; discriminate]. }
+      unfold u_nl, u_ls. destruct (u_ks c pairs) as [|k0 kr]; [congruence|]. cbn [filter].
+      destruct (u_lit k0); cbn; [|discriminate]. intro E. apply app_eq_nil in E. destruct E; discriminate.
+    + unfold u_nl. apply NoDup_map_filter. apply NoDup_form_set_on.
+  - (* Annot *)
+    cbn [wf] in Hwf. apply andb_true_iff in Hwf. destruct Hwf as [Hwt Ha].
+    cbn [to_expr norm]. destruct a as [|a0 ar]; [discriminate|]. cbn [map].
+    rewrite conv_annot_sub. rewrite (IHt Hwt).
+    change (EStr a0 :: map EStr ar) with (map EStr (a0 :: ar)).
+    rewrite (mapM_map ann_arg EStr (fun x => x)) by reflexivity. rewrite map_id. reflexivity.
+Qed.
+
+Theorem parse_print_lemma : forall env c t, wf env t = true ->
+  parse_ty env (print_ty c t) = Some (norm c t).
+Proof.
+  intros env c t H. destruct (print_to_expr env c t H) as [E W].
+  unfold parse_ty. rewrite E. rewrite (parse_flat _ W). apply conv_to_expr. exact H.
+Qed.
+
+(* ------------------------------------------------------------------------------------------------ *)
+(* printing the canonical form *)
+
+Lemma dedup_nodup : forall {A} (eqb : A -> A -> bool) l, nodup_by eqb l = true -> dedup eqb l = l.
+Proof.
+  induction l as [|x r IH]; intros H; [reflexivity|]. cbn in *. apply andb_true_iff in H. destruct H as [Hx Hr].
+  rewrite (IH Hr). f_equal. apply negb_true_iff in Hx.
+  clear -Hx. induction r as [|y s IHs]; [reflexivity|]. cbn in *. apply orb_false_iff in Hx. destruct Hx as [H1 H2].
+  rewrite H1. cbn. f_equal. apply IHs. exact H2.
+Qed.
+
+Lemma nodup_by_app : forall {A} (eqb : A -> A -> bool) a b,
+  nodup_by eqb (a ++ b) = true -> nodup_by eqb a = true /\ nodup_by eqb b = true.
+Proof.
+  induction a as [|x r IH]; intros b H; [split; [reflexivity|exact H]|].
+  cbn in *. apply andb_true_iff in H. destruct H as [Hx Hr]. destruct (IH b Hr) as [I1 I2].
+  split; [|exact I2]. rewrite I1, andb_true_r. rewrite existsb_app in Hx. apply negb_true_iff in Hx.
+  apply orb_false_iff in Hx. apply negb_true_iff. apply Hx.
+Qed.
+
+Lemma flatten_nonunion : forall l, (forall t, In t l -> is_union t = false) -> flatten l = l.
+Proof.
+  induction l as [|t r IH]; intros H; [reflexivity|]. unfold flatten in *. cbn [flat_map].
+  rewrite IH by (intros x Hx; apply H; right; exact Hx).
+  specialize (H t (or_introl eq_refl)). destruct t; try reflexivity. discriminate.
+Qed.
+
+Lemma flatten_app : forall a b, flatten (a ++ b) = flatten a ++ flatten b.
+Proof. intros. unfold flatten. apply flat_map_app. Qed.
+
+Lemma is_lit_not_union : forall t, is_lit t = true -> is_union t = false.
+Proof. destruct t; cbn; congruence. Qed.
+
+Lemma join_types_lits : forall l, (forall t, In t l -> is_lit t = true) -> nodup_by ty_eqb l = true -> l <> [] ->
+  flatten [join_types l] = l /\ join_types l = match l with [x] => x | _ => Union l end.
+Proof.
+  intros l Hl Hn Hne.
+  assert (Hf: flatten l = l) by (apply flatten_nonunion; intros t Ht; apply is_lit_not_union; apply Hl; exact Ht).
+  assert (Hnn: filter (fun t => negb (is_nothing t)) l = l).
+  { clear -Hl. induction l as [|t r IH]; [reflexivity|]. cbn.
+    pose proof (Hl t (or_introl eq_refl)) as Ht. destruct t; try discriminate. cbn. f_equal.
+    apply IH. intros x Hx. apply Hl. right. exact Hx. }
+  assert (Hna: existsb is_any l = false).
+  { clear -Hl. induction l as [|t r IH]; [reflexivity|]. cbn.
+    pose proof (Hl t (or_introl eq_refl)) as Ht. destruct t; try discriminate. cbn.
+    apply IH. intros x Hx. apply Hl. right. exact Hx. }
+  unfold join_types. rewrite Hf, Hnn, (dedup_nodup _ _ Hn).
+  destruct l as [|a [|b r]]; [congruence| |].
+  - split; [|reflexivity]. apply flatten_nonunion. intros t [<-|[]]. apply is_lit_not_union. apply Hl. left. reflexivity.
+  - rewrite Hna. unfold mk_union. rewrite Hf, (dedup_nodup _ _ Hn). split; [|reflexivity].
+    unfold flatten. cbn. rewrite app_nil_r. reflexivity.
+Qed.
+
+(* what is known about a member and its canonical form when printing the canonical form *)
+Definition member_ok2 (env : penv) (c : ctx) (p : ty * ty) : Prop :=
+  member_ok env c p /\ print_ty c (snd p) = u_key c p /\ is_union (snd p) = false.
+
+Lemma norm_union_single : forall c pairs p,
+  u_nl c pairs ++ u_ls c pairs = [p] -> (is_lit (fst p) = true -> is_lit (snd p) = true) ->
+  norm_union c pairs = snd p.
+Proof.
+  intros c pairs p H Hl. unfold norm_union.
+  destruct (u_nl c pairs) as [|a [|b r]]; cbn in H.
+  - rewrite H. cbn. assert (Hp: In p (u_ls c pairs)) by (rewrite H; left; reflexivity).
+    unfold u_ls in Hp. apply filter_In in Hp. destruct Hp as [_ Hp]. unfold u_lit in Hp. specialize (Hl Hp).
+    destruct (snd p); try discriminate. reflexivity.
+  - injection H as -> H. rewrite H. reflexivity.
+  - destruct r; discriminate.
+Qed.
+
+Lemma norm_union_multi : forall env c pairs,
+  (forall p, In p (u_ks c pairs) -> member_ok2 env c p) ->
+  2 <= length (u_nl c pairs ++ u_ls c pairs) ->
+  nodup_by ty_eqb (union_F c pairs) = true ->
+  norm_union c pairs = Union (union_F c pairs).
+Proof.
+  intros env c pairs Hks Hlen Hnd. unfold norm_union, union_F in *.
+  set (nl := u_nl c pairs) in *. set (ls := u_ls c pairs) in *. set (nl' := u_nl' c pairs) in *.
+  assert (Hnl: forall p, In p nl -> is_union (snd p) = false).
+  { intros p Hp. unfold nl, u_nl in Hp. apply filter_In in Hp. apply (Hks p (proj1 Hp)). }
+  assert (Hnl': forall p, In p nl' -> is_union (snd p) = false).
+  { intros p Hp. unfold nl', u_nl' in Hp. apply filter_In in Hp. apply Hnl. apply Hp. }
+  assert (Hls: forall t, In t (map snd ls) -> is_lit t = true).
+  { intros t Ht. apply in_map_iff in Ht. destruct Ht as (p & <- & Hp). unfold ls, u_ls in Hp.
+    apply filter_In in Hp. destruct Hp as [Hp Hl]. destruct (Hks p Hp) as ((_ & _ & _ & Hv) & _).
+    destruct (Hv Hl) as (v & _ & ->). reflexivity. }
+  assert (Hfl: forall X : list (ty * ty), (forall p, In p X -> is_union (snd p) = false) -> flatten (map snd X) = map snd X).
+  { intros X HX. apply flatten_nonunion. intros t Ht. apply in_map_iff in Ht. destruct Ht as (p & <- & Hp). apply HX. exact Hp. }
+  (* nodup facts *)
+  destruct (nodup_by_app _ _ _ Hnd) as [Hnd1 Hnd2]. destruct (nodup_by_app _ _ _ Hnd2) as [Hndl _].
+  assert (Hlg: forall X : list (ty * ty), flatten (map snd X ++ match ls with [] => [] | _ :: _ => [join_types (map snd ls)] end)
+                         = flatten (map snd X) ++ map snd ls).
+  { intros X. rewrite flatten_app. f_equal. destruct ls as [|q qs] eqn:El; [reflexivity|].
+    rewrite <- El in *. apply join_types_lits; [exact Hls | exact Hndl |]. rewrite El. discriminate. }
+  destruct (existsb (u_none c) nl) eqn:EN.
+  - (* a None member *)
+    assert (Hinner: forall T', nodup_by ty_eqb (flatten T') = true ->
+              flatten [match T' with [x] => x | l => mk_union l end] = flatten T').
+    { intros T' Hn'. destruct T' as [|a [|b r]]; [| reflexivity |].
+      - reflexivity.
+      - unfold mk_union. rewrite (dedup_nodup _ _ Hn'). unfold flatten at 1. cbn. rewrite app_nil_r. reflexivity. }
+    assert (HF0: flatten (map snd nl' ++ match ls with [] => [] | _ :: _ => [join_types (map snd ls)] end) = map snd nl' ++ map snd ls).
+    { rewrite Hlg, (Hfl nl' Hnl'). reflexivity. }
+    assert (Hn0: nodup_by ty_eqb (map snd nl' ++ map snd ls) = true).
+    { rewrite app_assoc in Hnd. apply (nodup_by_app _ _ _ Hnd). }
+    assert (Hres: mk_union [match map snd nl' ++ match ls with [] => [] | _ :: _ => [join_types (map snd ls)] end with
+                             | [x] => x | l => mk_union l end; Named (NP id_NoneType)]
+                  = Union (map snd nl' ++ map snd ls ++ [Named (NP id_NoneType)])).
+    { set (T' := map snd nl' ++ match ls with [] => [] | _ :: _ => [join_types (map snd ls)] end) in *.
+      set (inner := match T' with [x] => x | l => mk_union l end).
+      assert (Hi: flatten [inner] = map snd nl' ++ map snd ls).
+      { unfold inner. rewrite Hinner by (rewrite HF0; exact Hn0). exact HF0. }
+      unfold mk_union at 1.
+      assert (E: flatten [inner; Named (NP id_NoneType)] = flatten [inner] ++ [Named (NP id_NoneType)])
+        by (apply (flatten_app [inner] [Named (NP id_NoneType)])).
+      rewrite E, Hi. rewrite <- app_assoc. rewrite (dedup_nodup _ _ Hnd). reflexivity. }
+    destruct (map snd nl ++ match ls with [] => [] | _ :: _ => [join_types (map snd ls)] end) as [|a [|b r]] eqn:ET.
+    + apply app_eq_nil in ET. destruct ET as [E1 _]. apply map_eq_nil in E1. rewrite E1 in EN. discriminate.
+    + (* a single printed item that is None: impossible with two members *)
+      exfalso. destruct nl as [|p [|p2 pr]]; cbn in ET.
+      * discriminate.
+      * destruct ls; [cbn in Hlen; lia|discriminate].
+      * destruct pr; discriminate.
+    + exact Hres.
+  - (* no None member *)
+    assert (Enl: nl' = nl).
+    { unfold nl', u_nl'. fold nl. clear -EN. induction nl as [|p r IH]; [reflexivity|]. cbn in *.
+      apply orb_false_iff in EN. destruct EN as [E1 E2]. rewrite E1. cbn. f_equal. apply IH. exact E2. }
+    rewrite Enl in *. rewrite app_nil_r in *.
+    assert (HF: flatten (map snd nl ++ match ls with [] => [] | _ :: _ => [join_types (map snd ls)] end) = map snd nl ++ map snd ls).
+    { rewrite Hlg, (Hfl nl Hnl). reflexivity. }
+    destruct (map snd nl ++ match ls with [] => [] | _ :: _ => [join_types (map snd ls)] end) as [|a [|b r]] eqn:ET.
+    + apply app_eq_nil in ET. destruct ET as [E1 E2]. apply map_eq_nil in E1. rewrite E1 in Hlen.
+      destruct ls; [cbn in Hlen; lia|discriminate].
+    + destruct nl as [|p [|p2 pr]]; cbn in ET.
+      * destruct ls as [|q qs] eqn:El; [discriminate|]. injection ET as <-.
+        rewrite <- El in *. cbn [map app].
+        destruct (join_types_lits (map snd ls) Hls Hndl ltac:(rewrite El; discriminate)) as [_ ->].
+        rewrite El in *. destruct qs; [cbn in Hlen; lia|reflexivity].
+      * destruct ls; [cbn in Hlen; lia|discriminate].
+      * destruct pr; discriminate.
+    + unfold mk_union. rewrite <- ET at 1. rewrite HF. rewrite (dedup_nodup _ _ Hnd). reflexivity.
+Qed.
